@@ -20,32 +20,94 @@ structure Inv (s : FS) : Prop where
   idOk : ∀ id blk, s.v.r.bodies id = some blk → blk.id = id
   numOk : ∀ n id blk, s.v.m.index n = some id → s.v.r.bodies id = some blk → blk.number = n
 
+/-- under the invariant the freezer item at the height of a frozen main-chain block is that block -/
+theorem frozen_at_main (s : FS) (h : Inv s) (id : Nat) (blk : Block) (hm : OnMain s id blk)
+    (h0 : 0 < blk.number) (hlt : blk.number < frozenNumber s) :
+    s.frozen[blk.number - 1]? = some blk := by
+  have hlt' : blk.number - 1 < s.frozen.length := by unfold frozenNumber at hlt; omega
+  obtain ⟨fb, hfb⟩ : ∃ fb, s.frozen[blk.number - 1]? = some fb :=
+    ⟨s.frozen[blk.number - 1], List.getElem?_eq_getElem hlt'⟩
+  rw [hfb]
+  obtain ⟨_, h2, h3⟩ := h.frozenOk _ _ hfb
+  have hk : blk.number - 1 + 1 = blk.number := by omega
+  rw [hk] at h3
+  have : fb.id = id := by
+    have := hm.2; rw [h3] at this; exact Option.some.inj this
+  rw [this, hm.1] at h2
+  cases h2; rfl
+
+/-- `get_frozen_block` of a main-chain block: the block iff its height is frozen -/
+theorem getFrozen_main (s : FS) (h : Inv s) (id : Nat) (blk : Block) (hm : OnMain s id blk) :
+    getFrozen s id = if 0 < blk.number ∧ blk.number < frozenNumber s then some blk else none := by
+  unfold getFrozen
+  rw [h.hdrOk id blk hm]
+  simp only [Bool.not_true, Bool.false_eq_true, if_false, hm.1]
+  by_cases hc : 0 < blk.number ∧ blk.number < frozenNumber s
+  · simp only [if_true, hc, and_self]
+    rw [frozen_at_main s h id blk hm hc.1 hc.2]
+    simp [h.idOk id blk hm.1]
+  · have hc' : ¬ (decide (0 < blk.number) && decide (blk.number < frozenNumber s)) = true := by
+      simpa using hc
+    simp only [hc', hc, if_false]
+    rfl
+
 /-- under the invariant `get_block(hash)` of a main-chain block is that block, wherever it lives -/
 theorem getBlock_main (s : FS) (h : Inv s) (id : Nat) (blk : Block) (hm : OnMain s id blk) :
     getBlock s id = .some blk := by
   unfold getBlock
+  rw [h.hdrOk id blk hm, getFrozen_main s h id blk hm]
+  simp only [Bool.not_true, Bool.false_eq_true, if_false, hm.1]
+  by_cases hc : 0 < blk.number ∧ blk.number < frozenNumber s
+  · simp [hc]
+  · simp only [hc, if_false]
+    have hb : s.body id = true := h.bodyOk id blk hm (by omega)
+    simp [hb]
+
+/-- the same for the code before the repair of F17 (on main-chain blocks the two agree) -/
+theorem getBlockPreF17_main (s : FS) (h : Inv s) (id : Nat) (blk : Block) (hm : OnMain s id blk) :
+    getBlockPreF17 s id = .some blk := by
+  unfold getBlockPreF17
   rw [h.hdrOk id blk hm]
   simp only [Bool.not_true, Bool.false_eq_true, if_false, hm.1]
-  by_cases hc : (decide (0 < blk.number) && decide (blk.number < frozenNumber s)) = true
-  · simp only [hc, if_true]
-    simp only [Bool.and_eq_true, decide_eq_true_eq] at hc
-    have hlt : blk.number - 1 < s.frozen.length := by unfold frozenNumber at hc; omega
-    obtain ⟨fb, hfb⟩ : ∃ fb, s.frozen[blk.number - 1]? = some fb :=
-      ⟨s.frozen[blk.number - 1], List.getElem?_eq_getElem hlt⟩
-    rw [hfb]
-    obtain ⟨h1, h2, h3⟩ := h.frozenOk _ _ hfb
-    have hk : blk.number - 1 + 1 = blk.number := by omega
-    rw [hk] at h3
-    have : fb.id = id := by
-      have := hm.2; rw [h3] at this; exact Option.some.inj this
-    rw [this, hm.1] at h2
-    cases h2; rfl
-  · simp only [hc]
-    have hb : s.body id = true := by
-      apply h.bodyOk id blk hm
-      simp only [Bool.and_eq_true, decide_eq_true_eq] at hc
-      omega
+  by_cases hc : 0 < blk.number ∧ blk.number < frozenNumber s
+  · have hc' : (decide (0 < blk.number) && decide (blk.number < frozenNumber s)) = true := by simp [hc]
+    simp only [hc', if_true]
+    rw [frozen_at_main s h id blk hm hc.1 hc.2]
+  · have hc' : ¬ (decide (0 < blk.number) && decide (blk.number < frozenNumber s)) = true := by
+      simpa using hc
+    simp only [hc']
+    have hb : s.body id = true := h.bodyOk id blk hm (by omega)
     simp [hb]
+
+/-- every part accessor of a main-chain block answers from the kv rows or, once they are wiped,
+from the freezer: the block either way (the repair of F18) -/
+theorem getPart_main (s : FS) (h : Inv s) (id : Nat) (blk : Block) (hm : OnMain s id blk) :
+    getPart s id = some blk := by
+  unfold getPart
+  cases hb : s.body id with
+  | true => simp [hm.1]
+  | false =>
+    simp only [Bool.false_eq_true, if_false]
+    rw [getFrozen_main s h id blk hm]
+    have hc : 0 < blk.number ∧ blk.number < frozenNumber s := by
+      refine Decidable.byContradiction fun hn => ?_
+      have := h.bodyOk id blk hm (by omega)
+      rw [hb] at this; cases this
+    simp [hc]
+
+theorem getPacked_main (s : FS) (h : Inv s) (id : Nat) (blk : Block) (hm : OnMain s id blk) :
+    getPacked s id = some blk := by
+  unfold getPacked
+  rw [getFrozen_main s h id blk hm]
+  by_cases hc : 0 < blk.number ∧ blk.number < frozenNumber s
+  · simp [hc]
+  · simp only [hc, if_false]
+    have hb : s.body id = true := h.bodyOk id blk hm (by omega)
+    simp [hb, h.hdrOk id blk hm, hm.1]
+
+theorem getHeader_main (s : FS) (h : Inv s) (id : Nat) (blk : Block) (hm : OnMain s id blk) :
+    getHeader s id = some blk := by
+  simp [getHeader, h.hdrOk id blk hm, hm.1]
 
 /-- `get_transaction_with_info` of a transaction committed in a main-chain block -/
 theorem getTx_main (s : FS) (h : Inv s) (t : Nat) (info : TxInfo) (blk : Block) (tx : Tx)
